@@ -18,7 +18,7 @@ def T(module, *names, partial=False):
           "Kanzi.Properties.C12_ans1": "Kanzi.C12", "Kanzi.Properties.C12_cm": "Kanzi.C12", "Kanzi.Properties.C13_srt": "Kanzi.C13", "Kanzi.Properties.C01_blockgen": "Kanzi.C01gen",
           "Kanzi.Properties.C19_paths": "Kanzi.C19", "Kanzi.Properties.C13_alias": "Kanzi.C13", "Kanzi.Properties.C13_lzp": "Kanzi.C13", "Kanzi.Properties.C13_fsd": "Kanzi.C13", "Kanzi.Properties.C12_binary": "Kanzi.C12", "Kanzi.Properties.C12_fpaq": "Kanzi.C12",
           "Kanzi.Properties.C12_cm_codec": "Kanzi.C12", "Kanzi.Properties.C13_lz": "Kanzi.C13", "Kanzi.Properties.C13_lz_consts": "Kanzi.ConstsTie",
-          "Kanzi.Properties.C12_tpaq": "Kanzi.C12", "Kanzi.Properties.C12_tpaq_codec": "Kanzi.C12", "Kanzi.Properties.C12_huffman": "Kanzi.C12", "Kanzi.Properties.C13_utf": "Kanzi.C13", "Kanzi.Properties.C13_bwts": "Kanzi.C13", "Kanzi.Properties.C01_blockgen2": "Kanzi.C01gen", "Kanzi.Properties.C13_exe": "Kanzi.C13", "Kanzi.Properties.C13_bwt": "Kanzi.C13", "Kanzi.Properties.C13_rolz": "Kanzi.C13", "Kanzi.Properties.C13_rolz_consts": "Kanzi.ConstsTie", "Kanzi.Properties.C13_text": "Kanzi.C13", "Kanzi.Properties.C01_blockgen3": "Kanzi.C01gen", "Kanzi.Properties.C01_text_inst": "Kanzi.C01gen", "Kanzi.Properties.C03_rangebin": "Kanzi.C03", "Kanzi.Properties.C03_ans": "Kanzi.C03", "Kanzi.Properties.C03_ans_ex": "Kanzi.C03", "Kanzi.Properties.AllocsTie": "Kanzi.AllocsTie", "Kanzi.Properties.C03_huffman": "Kanzi.C03", "Kanzi.Properties.C03_text": "Kanzi.C03", "Kanzi.Properties.C03_rolz": "Kanzi.C03", "Kanzi.Properties.C03_huffman_agree": "Kanzi.C03", "Kanzi.Properties.C03_rolz_link": "Kanzi.C03"}[module]
+          "Kanzi.Properties.C12_tpaq": "Kanzi.C12", "Kanzi.Properties.C12_tpaq_codec": "Kanzi.C12", "Kanzi.Properties.C12_huffman": "Kanzi.C12", "Kanzi.Properties.C13_utf": "Kanzi.C13", "Kanzi.Properties.C13_bwts": "Kanzi.C13", "Kanzi.Properties.C01_blockgen2": "Kanzi.C01gen", "Kanzi.Properties.C13_exe": "Kanzi.C13", "Kanzi.Properties.C13_bwt": "Kanzi.C13", "Kanzi.Properties.C13_rolz": "Kanzi.C13", "Kanzi.Properties.C13_rolz_consts": "Kanzi.ConstsTie", "Kanzi.Properties.C13_text": "Kanzi.C13", "Kanzi.Properties.C01_blockgen3": "Kanzi.C01gen", "Kanzi.Properties.C01_text_inst": "Kanzi.C01gen", "Kanzi.Properties.C03_rangebin": "Kanzi.C03", "Kanzi.Properties.C03_ans": "Kanzi.C03", "Kanzi.Properties.C03_ans_ex": "Kanzi.C03", "Kanzi.Properties.AllocsTie": "Kanzi.AllocsTie", "Kanzi.Properties.C03_huffman": "Kanzi.C03", "Kanzi.Properties.C03_text": "Kanzi.C03", "Kanzi.Properties.C03_rolz": "Kanzi.C03", "Kanzi.Properties.C03_huffman_agree": "Kanzi.C03", "Kanzi.Properties.C03_rolz_link": "Kanzi.C03", "Kanzi.Properties.GuardsTie": "Kanzi.GuardsTie"}[module]
     return [{"module": module, "name": n if n.startswith("Kanzi.") else ns + "." + n, "partial": partial or n.endswith("_partial")} for n in names]
 
 
@@ -357,8 +357,8 @@ PROPS["C17"] = {
 PROPS["C18"] = {
     "title": "Independent streams do not interfere and internals are race-free", "design_ref": "5.18", "level": "proof",
     "technique": "PARTIAL Lean proof: no package-level variable is written after init (decided over a fact base regenerated from /repo) + protocol mutual-exclusion theorems; data races observed with the race detector under perturbed schedules",
-    "facts": ["Globals"],
-    "theorems": T(M18F, "C18_globals_readonly", "C18_global_aliases_reviewed", "C18_facts_nonvacuous") + T(M07, "C07_enc_mutex", "C07_dec_mutex")
+    "facts": ["Globals", "Guards"],
+    "theorems": T(M18F, "C18_globals_readonly", "C18_global_aliases_reviewed", "C18_facts_nonvacuous") + T("Kanzi.Properties.GuardsTie", "bwt_pair_guards") + T(M07, "C07_enc_mutex", "C07_dec_mutex")
                 + T("Kanzi.Properties.C13_bwt", "C13_bwt_tasks_disjoint"),
     "streams": [RACE], "race": True,
     "level_text": "PARTIAL PROOF. Proved: (1) every package-level variable of the library is written only by init / its own initialiser, and every place where a reference into a global table escapes is pinned and reviewed (theorems by `decide` over Generated/Globals.lean, re-extracted from /repo's AST on every run); (2) the shared bitstream is accessed by at most one task at a time for every N and every interleaving (C07 mutex theorems). (3) the worker goroutines of the parallel inverse BWT write pairwise disjoint ranges of the destination for every job count and every block (C13_bwt_tasks_disjoint, over the model of inverseBiPSIv2 that the bwt stream ties to the real code; before fix F46 they did not: two tasks wrote the same byte when the chunk size was odd, which the race detector never reported). NOT proved: the Go memory model itself and accesses inside the other codecs - observed only, with the race detector under hook-perturbed schedules.",
